@@ -84,6 +84,8 @@ type FuncSpec struct {
 	Requires  []Clause
 	Ensures   []Clause
 	Defines   []Clause // history-predicate definitions: assumed at call sites, not proved (listed)
+	Effects   []GhostEffect // ghost assignments executed at exit (history variables)
+	Unreachable []string    // return sites declared dead under the contract assumptions (must be vacuous)
 	PanicEns  []Clause // ensures that must hold if the function panics out (rare)
 	Modifies  []string
 	Loops     map[int]*LoopSpec
@@ -98,6 +100,11 @@ type FuncSpec struct {
 	Line      int
 	Props     []string // properties this function's safety obligations belong to
 	BodyProps []string
+}
+
+type GhostEffect struct {
+	Var    string
+	Clause Clause
 }
 
 type PureFunc struct {
@@ -557,7 +564,7 @@ var clauseKeywords = map[string]bool{
 	"func": true, "iface": true, "field": true, "pure": true, "predicate": true, "ghost": true, "axiom": true,
 	"lockinv": true, "protected": true, "chaninv": true, "atomic": true,
 	"requires": true, "ensures": true, "defines": true, "modifies": true, "decreases": true, "loop": true, "invariant": true,
-	"inline": true, "maypanic": true, "nopanic": true, "trusted": true, "stepinv": true, "props": true, "function": true,
+	"effect": true, "unreachable": true, "inline": true, "maypanic": true, "nopanic": true, "trusted": true, "stepinv": true, "props": true, "function": true,
 }
 
 type rawLine struct {
@@ -669,6 +676,34 @@ func parseSpecFile(path, pkg string) (*SpecFile, error) {
 				}
 				curLoop.Decreases = append(curLoop.Decreases, cl)
 			}
+		case "unreachable":
+			// unreachable return1, return2 : reason  -- return sites dead under the contract assumptions
+			if cur == nil {
+				return nil, fail(l, "unreachable outside func")
+			}
+			names := rest
+			if k := strings.Index(rest, ":"); k >= 0 {
+				names = rest[:k]
+			}
+			for _, n := range strings.Split(names, ",") {
+				if n = strings.TrimSpace(n); n != "" {
+					cur.Unreachable = append(cur.Unreachable, n)
+				}
+			}
+		case "effect":
+			// effect ghostvar := expr   -- ghost assignment executed at the function's exit
+			if cur == nil {
+				return nil, fail(l, "effect outside func")
+			}
+			k := strings.Index(rest, ":=")
+			if k < 0 {
+				return nil, fail(l, "effect needs ghostvar := expr")
+			}
+			e, err := parseExprString(strings.TrimSpace(rest[k+2:]))
+			if err != nil {
+				return nil, fail(l, "%v", err)
+			}
+			cur.Effects = append(cur.Effects, GhostEffect{Var: strings.TrimSpace(rest[:k]), Clause: Clause{Expr: e, Src: rest, File: base, Line: l.line}})
 		case "modifies":
 			if cur == nil {
 				return nil, fail(l, "modifies outside func")
